@@ -52,6 +52,19 @@ impl Ctl {
         st.release.remove(thread);
     }
 
+    /// Like `arm`, for the next time the thread passes the point (whatever happened before).
+    pub fn arm_next(&self, thread: &str, point: &str) {
+        let mut st = self.st.lock();
+        let seen = st
+            .hits
+            .get(&(thread.to_string(), point.to_string()))
+            .copied()
+            .unwrap_or(0);
+        st.pause
+            .insert(thread.to_string(), (point.to_string(), seen + 1));
+        st.release.remove(thread);
+    }
+
     /// Park the calling thread at a driver-level point (between two API calls of the victim).
     pub fn manual_point(&self, name: &'static str) {
         self.sched_point(name);
@@ -348,12 +361,26 @@ pub fn scenarios(rng: &mut StdRng, quick: bool) -> Vec<Scenario> {
             });
         }
     }
+    // a manual compaction whose merge is interrupted by a memtable flush (RainManual: BMergeFlush)
+    for second_caller in [false, true] {
+        out.push(Scenario {
+            name: format!(
+                "manual@compact_loop/rotate{}",
+                if second_caller { "+caller" } else { "" }
+            ),
+            victim: Victim::Get { k: 1 },
+            point: "compact_loop".to_string(),
+            nth: if second_caller { 2 } else { 1 },
+            script: "manual_rotate".to_string(),
+            memtable: 4000,
+        });
+    }
     if quick {
         // keep all reader scenarios and a random half of the writer ones
         let n = out.len();
         let mut keep = vec![];
         for (i, s) in out.into_iter().enumerate() {
-            if i < 24 || rng.gen_bool(0.6) || i + 5 > n {
+            if i < 24 || rng.gen_bool(0.6) || i + 7 > n {
                 keep.push(s);
             }
         }
@@ -526,9 +553,177 @@ fn run_cold_open(sc: &Scenario, seed: u64, run_no: u64) -> SchedOutcome {
     }
 }
 
+/// compact_range while the worker is suspended inside the merge loop of the manual compaction;
+/// meanwhile a writer rotates the memtable, so that the worker - once released - flushes it from
+/// inside the loop and wakes everybody who waits for background work (the compact_range caller,
+/// optionally a second one). Everybody must return.
+fn run_manual_rotate(sc: &Scenario, seed: u64, run_no: u64) -> SchedOutcome {
+    const BG: &str = "bg";
+    let u = Arc::new(Universe::plain(6));
+    let sink = TraceSink::new(Arc::clone(&u));
+    let fs = SimFs::new(ROOT);
+    let ctl = Ctl::new();
+    raindb::verif::install(
+        ROOT,
+        Arc::new(SinkObserver {
+            sink: Arc::clone(&sink),
+            want_contents: false,
+            ctl: Some(ctl.clone() as Arc<dyn Controller>),
+            lazy_gets: Mutex::new(Default::default()),
+            bg_active: std::sync::atomic::AtomicBool::new(true),
+            mute: vec![
+                "GetDone",
+                "IterDrop",
+                "IterDropped",
+                "BgBegin",
+                "BgEnd",
+                "ObsoleteCollected",
+                "OutputOpened",
+                "FlushBuilt",
+            ],
+        }),
+    );
+    take_panics();
+    sink.emit_json(
+        "Reset",
+        json!({"run": run_no, "seed": seed, "nk": u.n(), "driver": "sched", "tag": sc.name}),
+    );
+    let opts = OptSet {
+        memtable: sc.memtable,
+        file: 600,
+        block: 64,
+        reuse: false,
+    };
+    let db = match DB::open(opts.to_options(ROOT, &fs)) {
+        Ok(db) => Arc::new(db),
+        Err(e) => {
+            sink.emit_json("Hang", json!({"what": format!("open failed {}", e)}));
+            return SchedOutcome {
+                lines: sink.take(),
+                parked: false,
+                status: "openfail".into(),
+            };
+        }
+    };
+    let env = Arc::new(Env {
+        db: Arc::clone(&db),
+        sink: Arc::clone(&sink),
+        u: Arc::clone(&u),
+        ctl: ctl.clone(),
+        next_vid: Mutex::new(0),
+    });
+    let mut status = "ok".to_string();
+    // two generations of every key in different files, so that the manual compaction is a merge
+    for round in 0..2 {
+        for k in 1..=6 {
+            env.put(k, 200);
+            if k % 2 == 0 {
+                let _ = db.verif_force_flush();
+            }
+        }
+        let _ = wait_quiescent(&db, Duration::from_secs(20));
+        let _ = round;
+    }
+    ctl.arm_next(BG, "compact_loop");
+    let mut callers: Vec<(String, mpsc::Receiver<()>)> = vec![];
+    let d2 = Arc::clone(&db);
+    callers.push((
+        "mc1".into(),
+        spawn_named("mc1", move || d2.compact_range(None..None)),
+    ));
+    let parked = ctl.wait_parked(BG, Duration::from_secs(5));
+    if parked {
+        if sc.nth == 2 {
+            let d3 = Arc::clone(&db);
+            callers.push((
+                "mc2".into(),
+                spawn_named("mc2", move || d3.compact_range(None..None)),
+            ));
+            ctl.wait_waiting("mc2", Duration::from_secs(3));
+        }
+        // rotate the memtable while the worker is suspended: the second caller's
+        // force_memtable_compaction does it, otherwise a writer (one value larger than the
+        // budget, then one more write); neither is waited for before the worker is released
+        if sc.nth != 2 {
+            let e2 = Arc::clone(&env);
+            callers.push((
+                "wr".into(),
+                spawn_named("wr", move || {
+                    e2.put(6, 5000);
+                    e2.put(1, 40);
+                }),
+            ));
+        }
+        let t0 = Instant::now();
+        while t0.elapsed() < Duration::from_secs(3) {
+            match db.verif_try_state(Duration::from_secs(1)) {
+                Some(d) if d.has_imm => break,
+                _ => std::thread::sleep(Duration::from_millis(5)),
+            }
+        }
+        ctl.release(BG);
+    }
+    for (name, rx) in callers {
+        if rx.recv_timeout(Duration::from_secs(20)).is_err() {
+            sink.emit_json("Hang", json!({"what": format!("caller {}", name)}));
+            status = "hang".into();
+        }
+    }
+    if status == "ok" {
+        let e2 = Arc::clone(&env);
+        let rx = spawn_named("w1", move || {
+            for k in 1..=6 {
+                e2.put(k, 40);
+                e2.get(k);
+            }
+            e2.scan(false, false);
+        });
+        if rx.recv_timeout(Duration::from_secs(20)).is_err() {
+            sink.emit_json("Hang", json!({"what": "writer after manual compaction"}));
+            status = "hang".into();
+        }
+    }
+    if status == "ok" && wait_quiescent(&db, Duration::from_secs(20)).is_none() {
+        sink.emit_json("Hang", json!({"what": "background work does not settle"}));
+        status = "hang".into();
+    }
+    for p in peek_panics() {
+        sink.emit_json(
+            "Panic",
+            json!({"thread": p.thread, "msg": p.message, "loc": p.location}),
+        );
+        status = "panic".into();
+    }
+    take_panics();
+    drop(env);
+    if status == "ok" {
+        match Arc::try_unwrap(db) {
+            Ok(db) => {
+                let rx = spawn_named("closer", move || drop(db));
+                if rx.recv_timeout(Duration::from_secs(20)).is_err() {
+                    sink.emit_json("Hang", json!({"what": "close"}));
+                    status = "hang".into();
+                }
+            }
+            Err(db) => std::mem::forget(db),
+        }
+    } else {
+        std::mem::forget(db);
+    }
+    raindb::verif::clear(ROOT);
+    SchedOutcome {
+        lines: sink.take(),
+        parked,
+        status,
+    }
+}
+
 pub fn run_scenario(sc: &Scenario, seed: u64, run_no: u64) -> SchedOutcome {
     if sc.script == "cold_open" {
         return run_cold_open(sc, seed, run_no);
+    }
+    if sc.script == "manual_rotate" {
+        return run_manual_rotate(sc, seed, run_no);
     }
     let u = Arc::new(Universe::plain(6));
     let sink = TraceSink::new(Arc::clone(&u));
